@@ -107,6 +107,12 @@ impl Interp {
             }
             // a note for the model driver only (it keeps a bounded history from here on)
             "long" => "ok".to_string(),
+            // `fi <id> <x…>`: feed the filter INSIDE a cache wrapper directly
+            "fi" => {
+                let i = id(toks[1]);
+                let args: Vec<Val> = toks[2..].iter().map(|s| parse_val(s)).collect();
+                self.insts.get_mut(&i).expect("harness: unknown id").feed_inner(&args)
+            }
             // `sm <id>`: borrow the state through `StateMut::state_mut` as a reader would, and let go of it again
             "sm" => {
                 self.insts.get_mut(&id(toks[1])).expect("harness: unknown id").poke();
@@ -148,6 +154,36 @@ impl Interp {
                 };
                 "ok".to_string()
             }
+            "stset" => {
+                // `*a.state_mut() = <a copy of b's state>`: the state replaced in place, the object stays
+                let (a, b) = (id(toks[1]), id(toks[2]));
+                let src = self.insts[&b].clone_box();
+                let ok = self.insts.get_mut(&a).expect("harness: unknown id").state_from_inst(&*src);
+                assert!(ok, "harness: stset between different filter types");
+                let n = self.news[&b].clone();
+                self.news.insert(a, n);
+                match self.last.get(&b).cloned() {
+                    Some(l) => self.last.insert(a, l),
+                    None => self.last.remove(&a),
+                };
+                "ok".to_string()
+            }
+            "clonep" => {
+                // `clonep <id> <k>`: `Clone::clone` of the instance while the k-th operation of the instrumented sample type
+                // panics; a copy that does come into being is dropped at once. The original is only borrowed
+                let i = id(toks[1]);
+                let k: u64 = toks[2].parse().expect("harness: bad operation budget");
+                let inst = self.insts.get(&i).expect("harness: unknown id");
+                crate::tracked::set_cmp_budget(Some(k));
+                let r = catch_unwind(AssertUnwindSafe(|| drop(inst.clone_box())));
+                let fired = crate::tracked::cmp_budget_fired();
+                crate::tracked::set_cmp_budget(None);
+                match r {
+                    Ok(()) => "ok".to_string(),
+                    Err(_) if fired => "panicked".to_string(),
+                    Err(e) => std::panic::resume_unwind(e),
+                }
+            }
             "gutsrt" => {
                 let (a, b) = (id(toks[1]), id(toks[2]));
                 let c = self.insts[&a].gutsrt();
@@ -166,6 +202,21 @@ impl Interp {
                 let n = self.news[&a].clone();
                 assert!(n.starts_with("new "), "harness: fresh of an injected instance");
                 self.insts.insert(b, Self::build_from_line(&n));
+                self.news.insert(b, n);
+                self.last.remove(&b);
+                "ok".to_string()
+            }
+            "freshcfg" => {
+                // a new instance built from the configuration `a` hands out (`with_config(a.config())`); kinds without a
+                // configuration accessor: as `fresh`
+                let (a, b) = (id(toks[1]), id(toks[2]));
+                let n = self.news[&a].clone();
+                assert!(n.starts_with("new "), "harness: freshcfg of an injected instance");
+                let inst = match self.insts[&a].fresh_cfg() {
+                    Some(i) => i,
+                    None => Self::build_from_line(&n),
+                };
+                self.insts.insert(b, inst);
                 self.news.insert(b, n);
                 self.last.remove(&b);
                 "ok".to_string()
